@@ -207,7 +207,7 @@ func (c CounterStyle) renderValue(counterValue int, counter *CounterStyleDescrip
 	case "symbolic":
 		initial, ok = symbolic(counter.Symbols, counterValue)
 		if !ok {
-			return c.RenderValue(counterValue, "decimal")
+			return c.renderValue(counterValue, c.resolveCounter(counter.fallback(), previousTypes), previousTypes)
 		}
 	case "alphabetic":
 		initial, ok = alphabetic(counter.Symbols, counterValue)
@@ -277,7 +277,8 @@ func nonRepeating(symbols []pr.NamedString, firstValue, value int) (string, bool
 
 // Implement the algorithm for `type: symbolic`.
 func symbolic(symbols []pr.NamedString, value int) (string, bool) {
-	if len(symbols) == 0 {
+	if len(symbols) == 0 || value < 1 {
+		// the system is defined over strictly positive values only
 		return "", false
 	}
 	L := len(symbols)
